@@ -234,7 +234,7 @@ def run(prog, chk):
     chk.rule("C16.a", "CUR: cursor bounds in the XML tokenizer", floor=4)
     chk.rule("C16.b", "CUR progress: tokenizer loops advance; the content loop of parseElement consumes input on every round (save/rewind aware)", floor=5)
     chk.rule("C16.c", "TBL: bytes that terminate or break a value in the reader are escaped by the writer; escape tables have equal length", floor=4)
-    chk.rule("C16.f", "PAIRF: every store to pos.line is paired with a store to pos.lineStart", floor=6)
+    chk.rule("C16.f", "PAIRF: every store to pos.line is paired with a store to pos.lineStart", floor=3)      # (duplicated line accounting may legitimately be merged into a helper)
     summ = {X + "skipSpace": {"min_advance": 0}, X + "readToken": {"min_advance": 1}, X + "parseText": {"min_advance": 0},
             X + "parseElement": {"min_advance": 1}}
     rt, sk, pt, pa, pe = xfn(prog, X + "readToken"), xfn(prog, X + "skipSpace"), xfn(prog, X + "parseText"), xfn(prog, X + "parse", 2), xfn(prog, X + "parseElement")
@@ -477,14 +477,25 @@ def prolog_token_start(chk, rid, pa):
     conds = []
     for b in pa.blocks.values():
         c = b.get("cond")
-        if c is not None and re.search(r"pos\.pos\[1\] == '\?'|\*this->pos\.pos == '<'", q.no_casts(pa.r(c))):
-            conds.append(b["id"])
+        if c is None:
+            continue
+        cn_ = pa.nodes[pa.strip(c)]
+        # `*pos.pos == '<'` / `pos.pos[1] == '?'` in either polarity and operand order
+        if cn_["k"] == "BinaryOperator" and cn_.get("op") in ("==", "!=") and len(cn_["c"]) == 2:
+            vals_ = [fin.eval_expr(pa, x_, {}) for x_ in cn_["c"]]
+            txt_ = [q.no_casts(pa.r(x_)) for x_ in cn_["c"]]
+            for k_ in (0, 1):
+                if (vals_[k_] == 60 and txt_[1 - k_] == "*this->pos.pos") or (vals_[k_] == 63 and txt_[1 - k_] == "this->pos.pos[1]"):
+                    conds.append(b["id"])
     if not conds:
         raise AnalysisBroken("Xml::Private::parse: the processing-instruction test of the prolog was not found")
     head = max(conds)          # the first-evaluated operand of the loop condition (clang numbers blocks from the end)
     sk = [c for c in q.calls(pa) if pa.nodes[c].get("callee", "").endswith("::skipSpace")]
     skp = q.pos_of(pa, sk)
-    target = {(head, 0)}
+    # where the test starts to be evaluated (the block may begin with other statements - a skipSpace() call at the loop top)
+    hc_ = pa.blocks[head]["cond"]
+    hp_ = [pa.node_pos(x_) for x_ in [pa.strip(hc_)] + list(pa.desc(hc_)) if pa.node_pos(x_) is not None and pa.node_pos(x_)[0] == head]
+    target = {min(hp_)} if hp_ else {(head, 0)}
     where = "%s:%s" % (pa.file, pa.line)
     p0 = pa.find_path(pa.entry_pos(), target, avoid=skp, after_src=False)
     if p0 is None:
